@@ -181,7 +181,7 @@ def build():
         U.fn(CA, 'CertAuth', 'all_resources', external_body=True, ensures=[('is_all_res', 'r == all_res(*self)')]),
         U.fn(CA, 'CertAuth', 'handle', ensures=[('own_handle', '*r == self.handle')]),
         U.fn(CA, 'CertAuth', 'updated_allowed_and_needed', external_body=True, ensures=[
-            ('verified_in_c05_aspa', 'match r { Ok(b) => aspa_allowed_needed(*self, customer, *update) == Some(b), Err(_) => aspa_allowed_needed(*self, customer, *update) is None }')]),
+            ('verified_in_unit_c05_aspa', 'match r { Ok(b) => aspa_allowed_needed(*self, customer, *update) == Some(b), Err(_) => aspa_allowed_needed(*self, customer, *update) is None }')]),
     ]
     # --- append_updated_aspa_objects: the class loop on a vector handed in
     inv, gh = class_loop('aspa', '*all_aspas', 'events@', 'old(events)@.len() as int')
